@@ -338,6 +338,13 @@ def api_cases(thorough):
             for log in ("lin", "loglog"):
                 for layers in ("none", "one-mean", "two-mixed"):
                     yield {"kind": "api", "data": "spread-" + dt, "limits": limits, "log": log, "res": 4, "layers": layers, "xy": xy, "dtype": dt}
+    # layers that carry options of the 1-d histogram (weights, bins), e.g. made with group.layer(key, bins=..., weights=...) and used for
+    # both kinds of histogram, and the same options given to the call: a 2-d histogram layer is the per-bin sum or mean of its values
+    for dname in ("spread", "negatives"):
+        for limits in ("auto", "explicit"):
+            for layers in ("one-sum+layer-weights", "one-mean+layer-weights", "two-mixed+layer-weights", "none+call-weights", "one-mean+call-weights", "one-sum+call-bins"):
+                for res in (2, 4):
+                    yield {"kind": "api", "data": dname, "limits": limits, "log": "lin", "res": res, "layers": layers, "xy": datasets[dname]}
 
 
 def run_api_case(acc, idx, c):
@@ -382,7 +389,19 @@ def run_api_case(acc, idx, c):
     ops = []
     layers = []
     call_op = None
-    lay = c["layers"]
+    lay, _, h1opt = c["layers"].partition("+")
+    wts = A_(np.arange(2.0, len(xs) + 2.0) * 1.5, unit="g", name="w")
+    lopt = {"weights": wts, "bins": 5} if h1opt == "layer-weights" else {}
+    if h1opt == "call-weights":
+        kw["weights"] = wts
+    elif h1opt == "call-bins":
+        kw["bins"] = 5
+    if lopt:
+        _L = L_
+
+        def L_(data, **k):
+            return _L(data, **dict(k, **lopt))
+
     if lay == "one-sum":
         layers, ops = [L_(v1, operation="sum")], ["sum"]
     elif lay == "one-mean":
